@@ -257,7 +257,7 @@ def run(ctx):
         base = hd.derive(cnode, [H + p_ for p_ in [hd.BIP85_ROOT] + ap])
 
         def cands():
-            i = ctx.seed * 100000 + 2
+            i = (ctx.seed * 100000) % (2**31 - 10**6) + 2
             while True:
                 kid = hd.ckd_priv(base, H + i)
                 yield i, {"pathkey": kid.k.to_bytes(32, "big"), "entropy": hd._prf(b"bip-entropy-from-k", kid.k.to_bytes(32, "big"), None)}
